@@ -2,7 +2,8 @@
    This file contains only property-level statements; each is closed by [exact <lemma>].
    Model: Model/Json.v (write_json_string, Display for TagValue / TagList, LogEvent::write_jsonl).
    Independent reader: Spec/Json8259.v (RFC 8259 flat objects, RFC 3629 UTF-8). *)
-From SV Require Import Base.Bytes Base.BytesP Spec.Json8259 Model.Json Proofs.JsonP.
+From SV Require Import Base.Bytes Base.BytesP Base.SrcAst Spec.Json8259 Spec.Civil Model.Json Model.Time Proofs.JsonP
+  Tie.FmtEval Tie.JsonlBindsText Tie.JsonTie Generated.SourceParams.
 From Coq Require Import ZArith.
 
 (* C17.1  For ALL tag lists (any length) whose names and string values are arbitrary strings over
@@ -121,6 +122,34 @@ Example c17_nonvacuous :
           (k_time_ns, JNumber false 7 0)].
 Proof. vm_compute. repeat split; reflexivity. Qed.
 
+(* C17.src  the serialiser as TRANSLATED from the source ON THIS RUN (props/srcparams.py -> Generated/SourceParams.v),
+   interpreted by Tie/JsonTie.v, is the model the theorems above are about:
+   - write_json_string (src/log/tag_value.rs): quote, the `match c` arms in source order for every char, quote;
+   - impl Display for TagValue: the arm of every variant (the twelve integer variants print with Display, Str and
+     String go through write_json_string, Float is quoted iff it ends with NaN or inf, Null is `null`);
+   - LogEvent::write_jsonl (src/log/logger.rs): the let bindings, the branch on tags.is_empty(), the two format
+     strings segment by segment with their {:0w} widths, written with writeln!. *)
+Theorem c17_escape_is_the_source : forall c, eval_json_arms src_json_arms c = Some (escape_char c).
+Proof. exact json_escape_tie. Qed.
+Theorem c17_write_json_string_is_the_source : forall s, eval_write_json_string s = Some (write_json_string s).
+Proof. exact write_json_string_tie. Qed.
+Theorem c17_tag_value_display_is_the_source :
+  (forall s, eval_tv_arms src_tagvalue_arms v_Str s = Some (display_value (VStr s))) /\
+  (forall s, eval_tv_arms src_tagvalue_arms v_String s = Some (display_value (VStr s))) /\
+  (forall b : bool, eval_tv_arms src_tagvalue_arms v_Bool (if b then t_true else t_false) = Some (display_value (VBool b))) /\
+  (forall z name, In name int_variants -> eval_tv_arms src_tagvalue_arms name (display_int z) = Some (display_value (VInt z))) /\
+  (forall t, eval_tv_arms src_tagvalue_arms v_Float t = Some (display_value (VFloat t))) /\
+  eval_tv_arms src_tagvalue_arms v_Null [] = Some (display_value VNull) /\
+  map fst src_tagvalue_arms = [v_Str; v_String; v_Bool] ++ int_variants ++ [v_Float; v_Float; v_Null].
+Proof. exact tagvalue_display_tie. Qed.
+Theorem c17_write_jsonl_is_the_source : forall t lvl tags ns,
+  eval_write_jsonl t lvl tags ns = Some (write_jsonl (fmt_iso t) ns lvl tags).
+Proof. exact write_jsonl_tie. Qed.
+Theorem c17_write_jsonl_bindings_are_the_source : src_jsonl_binds = expected_jsonl_binds.
+Proof. exact jsonl_binds_tie. Qed.
+Theorem c17_translation_complete : src_problems_json = 0%nat /\ src_problems_jsonl = 0%nat.
+Proof. exact (conj json_translated jsonl_translated). Qed.
+
 Print Assumptions c17_jsonl_roundtrip.
 Print Assumptions c17_jsonl_roundtrip_utf8.
 Print Assumptions c17_jsonl_roundtrip_float_display.
@@ -132,3 +161,9 @@ Print Assumptions c17_line_params.
 Print Assumptions c17_utf8_roundtrip.
 Print Assumptions c17_debug_escape_refuted.
 Print Assumptions c17_bare_nonfinite_refuted.
+Print Assumptions c17_escape_is_the_source.
+Print Assumptions c17_write_json_string_is_the_source.
+Print Assumptions c17_tag_value_display_is_the_source.
+Print Assumptions c17_write_jsonl_is_the_source.
+Print Assumptions c17_write_jsonl_bindings_are_the_source.
+Print Assumptions c17_translation_complete.
